@@ -117,6 +117,7 @@ theorem appendCircuit_radixes (c sub : Circ) (loc : List Nat) :
 theorem insertCircuit_radixes (c sub : Circ) (ci : Int) (loc : List Nat) :
     (c.insertCircuit ci sub loc).1.radixes = c.radixes := by
   simp only [Circ.insertCircuit]
+  generalize c.resolveCycle ci = ci
   have keyI : ∀ (l : List Op) (acc : Circ × Except Err Unit),
       (l.foldl (fun (acc : Circ × Except Err Unit) o =>
         match acc.2 with
